@@ -239,3 +239,39 @@ func VerifH_C13_ServerRreaddir() {
 		verifAssert(rd.Count > 0, "when one entry fits both the count and the msize, at least one entry is listed")
 	}
 }
+
+// VerifH_C13_ServerRreadXattr: Tread on an attribute fid (bound by
+// Txattrwalk; the value sits in the fid's buffer). msize, count and offset
+// symbolic; the value is XL arbitrary bytes (longer than small msizes allow
+// in one reply).
+func VerifH_C13_ServerRreadXattr() {
+	f := &verifSizedFile{}
+	s := NewServer(&verifAttacher{f})
+	cs := verifNewConn(s)
+	msize := verifNondetU32()
+	negotiated := verifNegotiate(cs, msize)
+	verifAssume(negotiated >= 23)
+	xl := verifParam("XL", 96)
+	val := verifNondetBytes(xl)
+	ref := &fidRef{server: s, file: f, refs: 1, mode: ModeRegular, pathNode: s.pathTree,
+		pendingXattr: pendingXattr{op: xattrWalk, name: "user.x", size: uint64(xl), buf: val}}
+	cs.fids[1] = ref
+	count := verifNondetU32()
+	off := verifNondetU64()
+	reply := cs.handle(&tread{fid: 1, Offset: off, Count: count})
+	w := &verifRecWriter{}
+	err := send(verifLog, w, 5, reply)
+	verifAssert(err == nil, "reply sent")
+	verifAssert(w.total <= uint64(negotiated), "Rread (attribute fid) frame <= negotiated msize")
+	verifAssert(uint64(verifHdrSize(w.hdr)) == w.total, "size field == bytes written")
+	if _, isErr := reply.(*rlerror); isErr {
+		verifReach("xattr-read-refused")
+		return
+	}
+	verifReach("xattr-read-sent")
+	if uint64(negotiated) < uint64(xl)+11 && count > negotiated-11 {
+		verifReach("xattr-read-shortened")
+	}
+	// what is sent lies inside the value
+	verifAssert(w.total >= 11 && off+(w.total-11) <= uint64(xl), "attribute read stays inside the value")
+}
